@@ -222,7 +222,7 @@ func DeepCast(val Value, typ ast.Type, span errors.Span, allowCasts bool) (*Valu
 		// otherwise, the inner type must also match
 		return DeepCast(*opt.Inner, optType, span, allowCasts)
 	case ClosureValueKind, FunctionValueKind, BuiltinFunctionValueKind:
-		panic("Unreachable, the analyzer prevents this")
+		// Falls through to the incompatibility error below, like the VM does.
 	case NullValueKind:
 		switch typ.Kind() {
 		case ast.NullTypeKind:
